@@ -1,0 +1,133 @@
+//go:build verif && amd64 && go1.17 && !go1.27
+// +build verif,amd64,go1.17,!go1.27
+
+package encoder
+
+import (
+	"encoding/hex"
+	"fmt"
+	"reflect"
+	"strings"
+
+	"github.com/bytedance/sonic/internal/encoder/ir"
+	"github.com/bytedance/sonic/internal/encoder/vars"
+	"github.com/bytedance/sonic/internal/resolver"
+	"github.com/bytedance/sonic/option"
+)
+
+// VerifDumpProgram compiles vt with a fresh Compiler (exactly what makeEncoderVM / makeEncoderX86 do on a
+// cache miss) and renders the resulting ir.Program for the verification harness under /verif, one
+// instruction per line, fields separated by a blank:
+//
+//	<op> [<vi>] [<hex text>|<type name>] ...
+//
+// Every operand of the instruction is printed (ir.Program.Disassemble omits some and cannot print the
+// marshal ops of a JIT-mode program). Types are named by the caller. Built only with the `verif` tag.
+func VerifDumpProgram(vt reflect.Type, pv bool, opts option.CompileOptions, name func(reflect.Type) string) (text string, err error) {
+	defer func() {
+		if r := recover(); r != nil {
+			if e, ok := r.(error); ok {
+				err = e
+			} else {
+				err = fmt.Errorf("panic: %v", r)
+			}
+		}
+	}()
+	prog, err := NewCompiler().apply(opts).Compile(vt, pv)
+	if err != nil {
+		return "", err
+	}
+	var sb strings.Builder
+	for _, ins := range prog {
+		op := ins.Op()
+		opn := ir.OpNames[op]
+		if op == ir.OP_is_zero {
+			opn = "is_zero"
+		}
+		if op == ir.OP_unsupported {
+			opn = "unsupported"
+		}
+		switch op {
+		case ir.OP_byte, ir.OP_index:
+			fmt.Fprintf(&sb, "%s %d\n", opn, ins.Vi())
+		case ir.OP_text:
+			fmt.Fprintf(&sb, "%s %s\n", opn, hexOrDash(ins.Vs()))
+		case ir.OP_goto, ir.OP_is_nil, ir.OP_is_nil_p1, ir.OP_is_zero_1, ir.OP_is_zero_2, ir.OP_is_zero_4,
+			ir.OP_is_zero_8, ir.OP_is_zero_map, ir.OP_cond_testc, ir.OP_map_check_key, ir.OP_map_write_key:
+			fmt.Fprintf(&sb, "%s %d\n", opn, ins.Vi())
+		case ir.OP_is_zero:
+			fv := ins.VField()
+			fmt.Fprintf(&sb, "%s %d %s %s\n", opn, ins.Vi(), hexOrDash(fv.Name), name(fv.Type))
+		case ir.OP_slice_next:
+			fmt.Fprintf(&sb, "%s %d %d %s\n", opn, ins.Vi(), ins.Vlen(), name(ins.Vt()))
+		case ir.OP_recurse:
+			t, p := ins.Vp()
+			b := 0
+			if p {
+				b = 1
+			}
+			fmt.Fprintf(&sb, "%s %d %s\n", opn, b, name(t))
+		case ir.OP_map_iter, ir.OP_unsupported:
+			fmt.Fprintf(&sb, "%s %s\n", opn, name(ins.Vt()))
+		case ir.OP_marshal, ir.OP_marshal_p, ir.OP_marshal_text, ir.OP_marshal_text_p:
+			if vars.UseVM {
+				t, _ := ins.Vtab()
+				fmt.Fprintf(&sb, "%s %s\n", opn, name(t.Pack()))
+			} else {
+				fmt.Fprintf(&sb, "%s %s\n", opn, name(ins.Vt()))
+			}
+		default:
+			fmt.Fprintf(&sb, "%s\n", opn)
+		}
+	}
+	return sb.String(), nil
+}
+
+func hexOrDash(s string) string {
+	if s == "" {
+		return "-"
+	}
+	return hex.EncodeToString([]byte(s))
+}
+
+// VerifResolveStruct renders resolver.ResolveStruct(vt): one line per field,
+// "<hex name> <opts> <type name> <off>[*] <off>[*] ..." ('*' marks a dereferencing path element).
+func VerifResolveStruct(vt reflect.Type, name func(reflect.Type) string) string {
+	var sb strings.Builder
+	for _, fv := range resolver.ResolveStruct(vt) {
+		fmt.Fprintf(&sb, "%s %d %s", hexOrDash(fv.Name), int(fv.Opts), name(fv.Type))
+		for _, o := range fv.Path {
+			if o.Kind == resolver.F_deref {
+				fmt.Fprintf(&sb, " %d*", o.Size)
+			} else {
+				fmt.Fprintf(&sb, " %d", o.Size)
+			}
+		}
+		sb.WriteByte('\n')
+	}
+	return sb.String()
+}
+
+// VerifUseVM reports which executor this process runs (SONIC_ENCODER_USE_VM at start, or the Force* switches).
+func VerifUseVM() bool { return vars.UseVM }
+
+// VerifForceUseVM / VerifForceUseJit switch the executor and drop every cached program.
+func VerifForceUseVM() {
+	ForceUseVM()
+	vars.ResetProgramCache()
+}
+
+func VerifForceUseJit() {
+	ForceUseJit()
+	vars.ResetProgramCache()
+}
+
+// VerifResetProgramCache empties the encoder program cache (so that the next Marshal compiles afresh).
+func VerifResetProgramCache() { vars.ResetProgramCache() }
+
+// Constants the model is parameterised by.
+const (
+	VerifMaxStack  = vars.MaxStack
+	VerifMaxILBuf  = vars.MAX_ILBUF
+	VerifMaxFields = vars.MAX_FIELDS
+)
